@@ -1,5 +1,6 @@
 CONSTANTS
   Atomic = TRUE
+  SingleInPlace = FALSE
   DropDetached = TRUE
   Namespace = {1}
 INIT TInit
